@@ -1,5 +1,5 @@
 """C05 — reconstruction is independent of earlier calls in the same process."""
-import json, os, struct
+import json, struct, os, struct
 import lib, gen
 
 LEVEL = "proof"
@@ -91,11 +91,33 @@ def gen_cases(chk):
         cases.append(("szMode=SZ_BEST_SPEED", ["c:%x:0:%s:%s:0:0,0,0,0,a:0:5:%s" % (ty, dbits(1e-2), dbits(1e-3), one), "d:0"], spiky))
         cases.append(("-", ["c:%x:0:%s:%s:0:0,0,0,0,a:0:5:%s" % (ty, dbits(1e-2), dbits(1e-3), one), "d:0", "m:0"], spiky.replace("c:0:", "c:1:", 1)))
     n = 400 if thorough else 70
-    for _ in range(n):
+    for k in range(n):
         cfg = rng.choice(CFGS)
         h = gen_history(rng, 24 if thorough else 10)
         obs, _ = gen_compress(rng, "ccCk")
+        if k % 2 == 1:
+            # a compression of other data of the same element type (another scale: another value range) between the observed compression
+            # and the decompression of its stream
+            f = obs.split(":")
+            ty = int(f[2 if obs[0] == "k" else 1], 16)
+            for _try in range(20):
+                inter, _i = gen_compress(rng, "c")
+                g = inter.split(":")
+                if int(g[1], 16) == ty:
+                    break
+            g[1] = "%x" % ty
+            sc = struct.unpack("<d", struct.pack("<Q", int(g[9], 16)))[0]
+            g[9] = dbits(sc * rng.choice((0.01, 7.0)) if ty < 2 else sc)
+            if ty >= 2 and int(g[2], 16) not in (0, 1, 4):
+                g[2] = "0"
+            obs = obs + " " + ":".join(g)
         cases.append((cfg, h, obs))
+    # value-range protection: what the decompressor clamps to must come from the stream, not from whatever was compressed last
+    for ty in (0, 1):
+        for big, small in ((100.0, 1.0), (1.0, 100.0)):
+            a_ = "c:%x:0:%s:%s:0:0,0,0,0,3e8:0:%x:%s" % (ty, dbits(1e-3 * big), dbits(1e-3), 0x77 + ty, dbits(big))
+            b_ = "c:%x:0:%s:%s:0:0,0,0,0,3e8:2:%x:%s" % (ty, dbits(1e-3 * small), dbits(1e-3), 0x99 + ty, dbits(small))
+            cases.append(("szMode=SZ_BEST_SPEED;protectValueRange=YES", [], a_ + " " + b_))
     return cases
 
 
@@ -132,7 +154,7 @@ def run(chk):
     model = lib.build_model()
     cases = gen_cases(chk)
     hist = ["hist %s %s %s" % (cfg, "/".join(h) or "_", obs) for cfg, h, obs in cases]
-    fresh = ["hist %s _ %s" % (cfg, obs) for cfg, h, obs in cases]
+    fresh = ["hist %s _ %s" % (cfg, obs.split(" ")[0]) for cfg, h, obs in cases]
     ho = lib.run_cases(exe, hist, timeout=3000)
     fo = lib.run_cases(exe, fresh, timeout=3000)
     mcases, midx, mexp = [], [], []
